@@ -47,7 +47,7 @@ def main():
         patch = os.path.join(os.path.dirname(mf), "patch.diff")
         prop = m["property"]
         used = None
-        for base in (head, m["confirmed"]["base_commit"]):
+        for base in dict.fromkeys((head, m["confirmed"]["base_commit"])):
             wt = tempfile.mkdtemp(prefix="seedreg_wt_", dir="/tmp")
             os.rmdir(wt)
             sh("git", "-C", REPO, "worktree", "add", "--detach", wt, base)
